@@ -130,7 +130,7 @@ func cmdTables(args []string) {
 	}
 }
 
-var unwinders = map[string]*Unwinder{"ean": unwEAN, "qr": unwQR, "dm": unwDM, "aztec": unwAztec, "pdf": unwPDF, "qrblocks": unwQRBlocks}
+var unwinders = map[string]*Unwinder{"ean": unwEAN, "qr": unwQR, "dm": unwDM, "aztec": unwAztec, "pdf": unwPDF, "qrblocks": unwQRBlocks, "select": unwSelect}
 
 func cmdUnwind(args []string) {
 	fs := flag.NewFlagSet("unwind", flag.ExitOnError)
